@@ -4,7 +4,7 @@ import itertools
 import stix2
 from stix2 import Environment
 from stix2.datastore import CompositeDataSource
-from stix2.datastore.filters import Filter
+from stix2.datastore.filters import Filter, FilterSet
 from stix2.datastore.memory import MemorySource, MemoryStore
 from stix2.utils import deduplicate
 
@@ -71,6 +71,10 @@ def run_federation(masks, perm, filt):
     members[0].append(node(1))
     members[2].append(node(1))
     members[1].append(CREATOR_OBJ)
+    # an object without versions (a 2.1 SCO) that fails the filter used below: lookups by id are filtered like every other answer
+    sco = stix2.v21.File(name="v2")
+    members[1].append(sco)
+    members[2].append(sco)
     srcs = [MemorySource(objs) if objs else MemorySource() for objs in members]
     comp = CompositeDataSource()
     if perm < 6:
@@ -111,6 +115,19 @@ def run_federation(masks, perm, filt):
         q = api.query([Filter("type", "in", ["identity", "malware"])])
         want = sorted([(NODES[0], MODS[m]) for m in held] + [(NODES[1], MODS[0])] + ([(CREATOR, "2019-01-01T00:00:00.000Z")]))
         if sorted(key(o) for o in q) != want:
+            return False
+        # the query given as a FilterSet object the caller keeps (and uses again), or as a single filter: same answer, argument unchanged
+        fset = FilterSet([Filter("type", "in", ["identity", "malware"])])
+        for _ in range(2):
+            if sorted(key(o) for o in api.query(fset)) != want or len(list(fset)) != 1:
+                return False
+        if sorted(key(o) for o in api.query(Filter("type", "in", ["identity", "malware"]))) != want:
+            return False
+        got_sco = (api.get(sco.id), api.all_versions(sco.id), api.query([Filter("id", "=", sco.id)]))
+        if filt:
+            if got_sco[0] is not None or got_sco[1] or got_sco[2]:
+                return False
+        elif got_sco[0] is None or got_sco[0]["name"] != "v2" or len(got_sco[1]) != 1 or len(got_sco[2]) != 1:
             return False
         c = api.creator_of(node(1))
         if c is None or c["id"] != CREATOR:
@@ -229,8 +246,11 @@ def dedup(i1: int, i2: int, i3: int, v1: int, v2: int, v3: int, objects: bool = 
         if objects:
             objs = [node(i, v) for (i, v) in picks]        # library objects (modified is a datetime)
         else:
-            objs = [{"id": "x--%d" % i, "modified": MODS[v], "k": k} for k, (i, v) in enumerate(picks)]
+            # dict-kept objects: the third text is respelled per position (one instant, three spellings)
+            sp = ["2021-01-01T00:00:00.000Z", "2021-01-01T00:00:00Z", "2021-01-01T00:00:00.000000Z"]
+            objs = [{"id": "x--%d" % i, "modified": MODS[v] if v < 2 else sp[k], "k": k} for k, (i, v) in enumerate(picks)]
         out = deduplicate(objs)
-        ok = sorted(key(o) for o in out) == sorted({key(o) for o in objs})
+        inst = lambda o: (o["id"], stix2.utils.format_datetime(stix2.utils.parse_into_datetime(o["modified"])))   # noqa: E731  a version is (id, instant)
+        ok = sorted(inst(o) for o in out) == sorted({inst(o) for o in objs})
     V.reached()
     return ok
